@@ -327,7 +327,7 @@ func checkSet(t *rapid.T, rec *ev.Recorder, s Set, db, db2 *meta.DB, ep *stor.Ep
 	lt := s.isLT()
 	f := s.facts()
 	var base []Obs
-	consistent := true
+	consistent, resurrected := true, false
 	for pi, p := range perms {
 		ep.Set(uint64(s.Er))
 		if err := db.ResyncFromBlobstor(&orderedStore{blobs: permuted(blobs, p)}, strictErr); err != nil {
@@ -339,6 +339,24 @@ func checkSet(t *rapid.T, rec *ev.Recorder, s Set, db, db2 *meta.DB, ep *stor.Ep
 			t.Fatalf("observe after blob order %v: %v\n%s", p, err, s.Short())
 		}
 		normalise(s, f, addrs, v)
+		if lt && !resurrected {
+			// report only: a stored object whose tombstone is live and whose locks are
+			// all expired at the read epoch is nevertheless available after the rebuild
+			for i, a := range addrs {
+				m, stored := f.stored[a]
+				if !stored || m.Role != rPlain || !f.tombOn[a] || v[i].Class != stAvailable {
+					continue
+				}
+				live := false
+				for _, e := range f.lockOn[a] {
+					live = live || !expiredAt(e, s.Eq)
+				}
+				if !live {
+					resurrected = true
+					rec.Label("lock-and-tombstone:TOMBSTONED-OBJECT-AVAILABLE-AFTER-ALL-LOCKS-EXPIRED")
+				}
+			}
+		}
 		if pi == 0 {
 			base = v
 			continue
